@@ -339,6 +339,7 @@ def _verify_one(args):
         out["outcomes"] = [list(o) if isinstance(o, tuple) else o for o in outcomes]
         out["inlined"] = sorted(con.inline)
         out["used_rowmajor"] = bool(getattr(con, "used_rowmajor", False))
+        out["frame_name"] = con.frame_name
         q, th = _timeouts(tier)
         seen_names = {}
         names = []
@@ -623,6 +624,11 @@ def run_property(pid, tier="quick", seed=0, update_baseline=False, jobs=None):
             continue
         was_proved = baseline.get(_base(o["name"])) == "proved"
         confirmed = bool(replay and replay.get("violated"))
+        if confirmed and _only_known_classes(replay, known):
+            # the input the oracle found is an instance of a LISTED finding (it fails on the unchanged tree too): it says nothing
+            # about this obligation
+            replay = dict(replay, violated=False, note="the only failing input found reproduces a listed known finding")
+            confirmed = False
         if confirmed or was_proved:
             path = os.path.join(replay_dir, _safe(o["name"]) + ".json")
             json.dump(dict(property=pid, obligation=o["name"], function=r.get("func"), file=r.get("file"), lines=r.get("lines"),
@@ -638,6 +644,22 @@ def run_property(pid, tier="quick", seed=0, update_baseline=False, jobs=None):
     # obligations that disappeared relative to baseline
     names = {_base(o["name"]) for _, o in all_obs}
     missing = [n for n, st in baseline.items() if st == "proved" and n not in names]
+    # A missing INTERNAL proof step (loop invariant, call-site precondition, unreachable-raise obligation) is tolerated when the
+    # function it belongs to still verifies completely against its contract: every obligation generated for it now is discharged,
+    # it produced no error and its canary is live.  The proof merely took another route (a loop replaced by a call to a helper
+    # under contract, lines moved).  Missing postconditions / raises / frame / fault-point clauses and lemmas are never tolerated.
+    fully = {}
+    for r in results:
+        fn = r.get("frame_name") or r["func"].split(":")[-1]
+        ok = (not r["error"]) and bool(r["obligations"]) and all(o["status"] == "proved" for o in r["obligations"]) \
+            and (r.get("canary") or {}).get("falsified_post_fails") is not False
+        fully[fn] = fully.get(fn, True) and ok
+    tolerated = []
+    for n in list(missing):
+        fn, _, rest = n.partition("::")
+        if _INTERNAL_STEP.search(rest) and fully.get(fn):
+            missing.remove(n)
+            tolerated.append(n)
     errored_funcs = {r["func"] for r in results if r["error"]}
 
     # bounded stand-ins
@@ -696,6 +718,7 @@ def run_property(pid, tier="quick", seed=0, update_baseline=False, jobs=None):
             dropped_by_extraction=["type annotations", "docstrings", "typing.cast(T,x) -> x", "output-only calls (print, warn, tqdm, gc.collect, empty_cache) -> no-op", "with torch.no_grad(): -> body"],
             undecided=undecided, checker_faults=faults,
             **({"engine_selftest": selftest} if selftest is not None else {}),
+            **({"internal_proof_steps_no_longer_generated_but_function_fully_verified": tolerated[:50]} if tolerated else {}),
             **({"lean_cross_check": {k: lean[k] for k in ("theorems", "status", "seconds")}} if lean is not None else {}),
             **({"lean_lemma_files": {f: {k: r[k] for k in ("theorems", "status", "seconds")} for f, r in lean_extra.items()}} if lean_extra else {}),
         ),
@@ -751,6 +774,19 @@ def _glob(pattern, name):
     import fnmatch
 
     return fnmatch.fnmatchcase(name, pattern.replace("[", "\x00").replace("]", "\x01").replace("\x00", "[[]").replace("\x01", "[]]"))
+
+
+import re as _re
+
+
+def _only_known_classes(replay, known):
+    """Every failure class the run-time oracle reports for this input (`kinds` / `klass`) is the class of an open known finding."""
+    norm = lambda x: _re.sub(r"[^a-z0-9]+", "-", str(x).lower()).strip("-")
+    kinds = replay.get("kinds") or ([replay["klass"]] if replay.get("klass") else [])
+    classes = {norm(k["class"]) for k in known if k.get("class")}
+    return bool(kinds) and all(norm(x) in classes for x in kinds)
+
+_INTERNAL_STEP = _re.compile(r"(@loop\d+:(inv-entry|inv-preserved|variant-decreases|yield-matches-spec)|^call .*: pre:|^no-raise:)")
 
 
 def _base(name):
